@@ -436,6 +436,7 @@ ALSO = {
     "c16-early-exit": ["enumeration-fact"],
     "c16-mark-wrong": ["enumeration-fact"],
     "c12-isolated-3p": ["isolated-select"],
+    "c01-pop0": ["decoder-fact"],
     "c12-isolated-guard": ["isolated-select"],
 }
 for _m in MUTANTS:
